@@ -160,6 +160,8 @@ def theorem_names(mod):
 
 
 def audit(prop_mod):
+    if ',' in prop_mod:
+        return audit_many(prop_mod.split(','))
     """returns dict(ok, obligations, discharged, problems, axioms)"""
     problems = []
     closure = sorted(import_closure(prop_mod))
@@ -201,7 +203,18 @@ def audit(prop_mod):
                 theorems=names)
 
 
+def audit_many(mods):
+    rs = [audit(m) for m in mods]
+    return dict(ok=all(r['ok'] for r in rs), obligations=sum(r['obligations'] for r in rs), discharged=sum(r['discharged'] for r in rs),
+                problems=[p for r in rs for p in r['problems']], axioms={k: v for r in rs for k, v in r['axioms'].items()},
+                closure=sorted({c for r in rs for c in r['closure']}), external_imports=sorted({c for r in rs for c in r['external_imports']}),
+                theorems=[t for r in rs for t in r['theorems']])
+
+
 def leanchecker(mod):
+    if ',' in mod:
+        oks = [leanchecker(m) for m in mod.split(',')]
+        return all(o[0] for o in oks), ' '.join(o[1] for o in oks)[-2000:], sum(o[2] for o in oks)
     rc, out, err, dt = sh(['lake', 'env', 'leanchecker', mod], cwd=LEAN, timeout=1800)
     return rc == 0, (out + err)[-2000:], dt
 
@@ -334,7 +347,7 @@ def generic_check(spec, tier, seed, replay=None):
     if 'pregen' in spec:
         spec['pregen']()
     okd, logd, dtd = build_lean(['driver'])
-    okl, logl, dtl = build_lean([spec['lean_mod']])
+    okl, logl, dtl = build_lean(spec['lean_mod'].split(','))
     proof_broken = []
     if not okd:
         V.violation('driver_build', dict(kind='build', what='the Lean driver does not build', log=logd), no_input=True)
@@ -346,7 +359,7 @@ def generic_check(spec, tier, seed, replay=None):
         if not A['ok']:
             proof_broken += A['problems']
     else:
-        A = dict(ok=False, obligations=max(1, len(theorem_names(spec['lean_mod']))), discharged=0, problems=['lake build failed'],
+        A = dict(ok=False, obligations=max(1, sum(len(theorem_names(m)) for m in spec['lean_mod'].split(','))), discharged=0, problems=['lake build failed'],
                  axioms={}, closure=[], external_imports=[], theorems=[])
         proof_broken.append('lake build ' + spec['lean_mod'] + ' failed: ' + logl[-1500:])
     chk = None
@@ -418,7 +431,7 @@ def generic_check(spec, tier, seed, replay=None):
             V.violation('machinery', dict(kind='machinery', problems=st['problems']), no_input=True)
 
     cov = dict(obligations=A['obligations'], discharged=A['discharged'],
-               checker_cmd=f'cd /verif/lean && lake build {spec["lean_mod"]} && lake env lean ../work/audit/{spec["lean_mod"].split(".")[-1]}.lean  # #print axioms' + (' && lake env leanchecker ' + spec['lean_mod'] if tier == 'thorough' else ''),
+               checker_cmd=f'cd /verif/lean && lake build {spec["lean_mod"].replace(",", " ")} && lake env lean ../work/audit/{spec["lean_mod"].split(",")[0].split(".")[-1]}.lean  # #print axioms' + (' && lake env leanchecker ' + spec['lean_mod'] if tier == 'thorough' else ''),
                trusted_base=spec['trusted_base'] + ['Lean 4.33.0 kernel', 'axioms: ' + ', '.join(sorted({a for v in A['axioms'].values() for a in v}) or ['none'])] + ([f'imports outside the project: {A["external_imports"]}'] if A['external_imports'] else []),
                theorems=A['theorems'], axioms=A['axioms'], proof_problems=proof_broken, leanchecker=chk,
                evaluations=st['evaluations'], distinct_nontrivial=st['distinct_nontrivial'], rule=spec['rule'],
@@ -650,7 +663,7 @@ def memfs_check(spec, tier, seed, replay=None):
     if 'pregen' in spec:
         spec['pregen']()
     okd, logd, dtd = build_lean(['driver'])
-    okl, logl, dtl = build_lean([spec['lean_mod']])
+    okl, logl, dtl = build_lean(spec['lean_mod'].split(','))
     if not okd:
         V.violation('driver_build', dict(kind='build', what='the Lean driver does not build', log=logd), no_input=True)
         return V.finish('proof', dict(obligations=1, discharged=0, checker_cmd='lake build driver', trusted_base=[], explanation='driver build failed'), spec['assumptions'])
@@ -660,7 +673,7 @@ def memfs_check(spec, tier, seed, replay=None):
         if not A['ok']:
             proof_broken += A['problems']
     else:
-        A = dict(ok=False, obligations=max(1, len(theorem_names(spec['lean_mod']))), discharged=0, problems=['lake build failed'], axioms={}, closure=[], external_imports=[], theorems=[])
+        A = dict(ok=False, obligations=max(1, sum(len(theorem_names(m)) for m in spec['lean_mod'].split(','))), discharged=0, problems=['lake build failed'], axioms={}, closure=[], external_imports=[], theorems=[])
         proof_broken.append('lake build ' + spec['lean_mod'] + ' failed: ' + logl[-1500:])
     chk = None
     if tier == 'thorough' and okl:
@@ -729,7 +742,7 @@ def memfs_check(spec, tier, seed, replay=None):
             V.violation('proof', dict(kind='proof-broken', theorems=proof_broken, searched=searched), no_input=True)
 
     cov = dict(obligations=A['obligations'], discharged=A['discharged'],
-               checker_cmd=f'cd /verif/lean && lake build {spec["lean_mod"]} && lake env lean ../work/audit/{spec["lean_mod"].split(".")[-1]}.lean  # #print axioms' + (' && lake env leanchecker ' + spec['lean_mod'] if tier == 'thorough' else ''),
+               checker_cmd=f'cd /verif/lean && lake build {spec["lean_mod"].replace(",", " ")} && lake env lean ../work/audit/{spec["lean_mod"].split(",")[0].split(".")[-1]}.lean  # #print axioms' + (' && lake env leanchecker ' + spec['lean_mod'] if tier == 'thorough' else ''),
                trusted_base=spec['trusted_base'] + ['Lean 4.33.0 kernel', 'axioms: ' + ', '.join(sorted({a for v in A['axioms'].values() for a in v}) or ['none'])],
                theorems=A['theorems'], axioms=A['axioms'], proof_problems=proof_broken, leanchecker=chk,
                evaluations=st['evaluations'], distinct_nontrivial=st['distinct_nontrivial'], rule=spec['rule'], samples=st['samples'],
